@@ -230,9 +230,10 @@ def programs(w, tier):
                 break
     # a program that jumps into the lazily-zero tail of a long segment (those words exist without being stored anywhere): breakpoints there
     # pause like anywhere else
-    lazy = with_data_segment(R1.Image(w, [(0, 8), (20, 2200)], {0: 3 * w + 9, 1: (20 + 1100) * w, 20: 0, 21: 0}))
-    r = R1.run(lazy, [], H)
-    progs = [('lazy-tail', lazy, [], r)] + progs
+    if w >= 16:   # (the 2^8-bit address space has no room for a 1000-word tail)
+        lazy = with_data_segment(R1.Image(w, [(0, 8), (20, 2200)], {0: 3 * w + 9, 1: (20 + 1100) * w, 20: 0, 21: 0}))
+        r = R1.run(lazy, [], H)
+        progs = [('lazy-tail', lazy, [], r)] + progs
     return progs[:want * 2]
 
 
